@@ -1,4 +1,8 @@
 import CnbVerif.Driver.C04
+import CnbVerif.Driver.C03
+import CnbVerif.Driver.C19
+import CnbVerif.Driver.C13
+import CnbVerif.Driver.C09
 /-!
 Model driver. One request per line, tab separated: `<property> \t <input fields…> \t <implementation observation>`.
 Answer: `<model observation> \t <spec verdict on the implementation's observation>`.
@@ -13,6 +17,10 @@ def dispatch (line : String) : String :=
       let fields := revFields.reverse
       let (m, v) :=
         if prop = "c04" then DriverC04.handle fields obs
+        else if prop = "c03" then DriverC03.handle fields obs
+        else if prop = "c19" then DriverC19.handle fields obs
+        else if prop = "c13" then DriverC13.handle fields obs
+        else if prop = "c09" then DriverC09.handle fields obs
         else ("bad-op", "bad-op")
       m ++ "\t" ++ v
     | [] => "bad-op\tbad-op"
